@@ -786,7 +786,7 @@ func vfC05Count(q query.Q) int {
 }
 
 func TestVerifC05(t *testing.T) {
-	r := vfNewRand(vfSeed())
+	r := vfNewRand(vfNewRand(vfSeed()).U64()) // the shared splitmix64 seeding makes seed k+1 the stream of seed k shifted by ONE draw: hash the seed first
 	n := vfN(300)
 	var w *vfC05World
 	for i := 0; i < n; i++ {
